@@ -287,6 +287,9 @@ struct CppWorld : World {
     void gen(Rng &r, Plan &pl, bool thorough) override
     {
         if (getenv("ASIM_TWIN")) pl.add("knob.twin", {1});
+        // in half of the runs every 8th operation (those at one residue) meets a dead system entropy source:
+        // it only feeds masking randomness, so nothing an object returns may change
+        pl.add("knob.rngdead", {(int64_t)(r.chance(1, 2) ? r.below(8) : 99)});
         int nops = thorough ? 16 + (int)r.below(44) : 10 + (int)r.below(32);
         bool clive[NC] = {false, false, false};
         int ccls[NC] = {0, 0, 0};
@@ -560,11 +563,15 @@ struct CppWorld : World {
         c.residue = residue;
         simrng_reset(simrng_cur(), plan.digest() ^ salt, SIMRNG_RANDOM);
         int idx = 0;
+        int rngdead = (int)plan.knob("rngdead", 99);
         for (const Op &op : plan.ops) {
             run.cur_op = idx++;
             const std::string &nm = op.name;
             if (nm.compare(0, 5, "knob.") == 0) continue;
             if (record) { run.ops_done++; run.task(nm[0] == 'h' ? 10 + (int64_t)(op.u(0) % NH) : (int64_t)(op.u(0) % NC)); }
+            struct DeadRng { bool on; DeadRng(bool o) : on(o) { if (on) simrng_arm(simrng_cur(), 0, 1); } ~DeadRng() { if (on) simrng_arm(simrng_cur(), 0, 0); } };
+            DeadRng dead_rng(rngdead < 8 && (idx % 8) == rngdead);
+            if (dead_rng.on && record) run.fault("rng.dead_during_operation");
             if (nm == "new") do_new(c, op);
             else if (nm == "setkey") do_setkey(c, op);
             else if (nm == "enc") do_packet(c, op, false);
